@@ -130,7 +130,7 @@ func NewWorld(cfg WorldConfig) *World {
 			plugins = append(plugins, p)
 		}
 	}
-	w.conns = newSimConnMgr(w.devices)
+	w.conns = newSimConnMgr(w.devices, w.fuse)
 	w.reg = newRegistry(plugins...)
 
 	var err error
